@@ -115,7 +115,7 @@ def run(ctx):
     if thorough:
         mc.append(("serial3", dict(Runs="R3", Serial="TRUE", StepBeh="BehOk", WithClose="TRUE")))
         mc.append(("conc3", dict(Runs="R3", StepBeh="BehOk", WithClose="FALSE")))
-        mc.append(("conc2badsig_cap2", dict(Runs="R2", Cap=2, StepBeh="BehAll", SigRuns="R2", BadSigRuns="R1", WithClose="TRUE")))
+        mc.append(("conc2badsig_cap1", dict(Runs="R2", Cap=1, StepBeh="BehOkErr", SigRuns="R1", BadSigRuns="R1", WithClose="TRUE")))
     cex_scenarios = []
     for name, consts in mc:
         cfg = A.mc_cfg(os.path.join(ctx.tmp, "c06_%s.cfg" % name), consts, invariants=INVS)
